@@ -5,6 +5,7 @@
 package main
 
 import (
+	"bytes"
 	"context"
 	"errors"
 	"fmt"
@@ -57,6 +58,20 @@ func commitProgram(st *store.ImmuStore, l *storeh.Ledger, who int, prog string) 
 		tx.Set(key, nil, val)
 		if prog == "commit2" {
 			tx.Set([]byte("k2"), store.NewKVMetadata(), append(val, val...))
+		}
+		h, err := tx.Commit(ctx)
+		if err != nil {
+			return "err:" + err.Error()
+		}
+		return ack(h)
+	case "commit-large":
+		// three 22 KiB values: the total crosses the 64 KiB boundary of 2-byte length fields
+		tx, err := st.NewWriteOnlyTx(ctx)
+		if err != nil {
+			return "newtx:" + err.Error()
+		}
+		for e := 0; e < 3; e++ {
+			tx.Set([]byte(fmt.Sprintf("big%d", e)), nil, bytes.Repeat([]byte{byte('A' + who + e)}, 22<<10))
 		}
 		h, err := tx.Commit(ctx)
 		if err != nil {
@@ -228,6 +243,12 @@ func main() {
 		return baseOpts().WithEmbeddedValues(true).WithPreallocFiles(true).WithWriteTxHeaderVersion(0)
 	}
 	tinyFiles := func() *store.Options { return baseOpts().WithFileSize(256).WithMaxIOConcurrency(2) }
+	largeEmbedded := func() *store.Options {
+		return baseOpts().WithEmbeddedValues(true).WithMaxValueLen(32 << 10).WithFileSize(1 << 20).WithWriteBufferSize(1 << 17)
+	}
+	largePlain := func() *store.Options {
+		return baseOpts().WithMaxValueLen(32 << 10).WithFileSize(1 << 16).WithWriteBufferSize(1 << 12)
+	}
 	variants := []variant{
 		{name: "2commit", opts: baseOpts, writers: []string{"commit", "commit"}, observer: false, reopen: 1},
 		{name: "commit+async+observer", opts: baseOpts, writers: []string{"commit", "async"}, observer: true, reopen: 1},
@@ -236,6 +257,8 @@ func main() {
 		{name: "synced-2commit", opts: synced, writers: []string{"commit", "commit2"}, reopen: 1},
 		{name: "embedded-prealloc-v0", opts: embedded, writers: []string{"commit", "commit2"}, reopen: 2},
 		{name: "tinyfiles-3commit", opts: tinyFiles, writers: []string{"commit2", "commit2", "commit"}, reopen: 1},
+		{name: "embedded-large-tx", opts: largeEmbedded, writers: []string{"commit-large", "commit"}, reopen: 2},
+		{name: "plain-large-tx", opts: largePlain, writers: []string{"commit-large", "commit2"}, reopen: 1},
 	}
 	var scs []sched.Scenario
 	for _, v := range variants {
